@@ -254,11 +254,10 @@ Fixpoint rev_prefix (a b : string) : bool :=      (* a is a prefix of b *)
 Fixpoint srev (s acc : string) : string := match s with EmptyString => acc | String c r => srev r (String c acc) end.
 Definition ends_with (suffix s : string) : bool := rev_prefix (srev suffix EmptyString) (srev s EmptyString).
 
-(* known findings: the four `get_<representation>` templates of ppl_interface_generator_c_cc_code.m4 (address of a
-   temporary) and the `linear_partition` template (addresses of the members of a local std::pair) *)
+(* known finding: the four `get_<representation>` templates of ppl_interface_generator_c_cc_code.m4 (address of a
+   temporary); the `linear_partition` outputs are owned objects since the fix of that template *)
 Definition exempt_getter (n : string) : bool :=
-  existsb (fun suf => ends_with suf n) ["_get_constraints"; "_get_minimized_constraints"; "_get_congruences"; "_get_minimized_congruences";
-                                        "_linear_partition"].
+  existsb (fun suf => ends_with suf n) ["_get_constraints"; "_get_minimized_constraints"; "_get_congruences"; "_get_minimized_congruences"].
 
 Definition no_dangling_outputs_full : Prop := dangling_outputs = [].
 
